@@ -17,7 +17,8 @@ RULE = (
     "append-after-shift, update-after-append, a merging reindex or a collapse omitting a present value. "
     "Distinct by the full operation list. construction: the C01 array strategy (all shape classes, common / counts / "
     "mapping options) through from_array, result checked with the same well-formedness predicate; non-trivial = at "
-    "least 2 distinct values and a mapping or an explicit common value."
+    "least 2 distinct values and a mapping or an explicit common value. long_entries: in-place set updates of an entry "
+    "of 64..1025 consecutive row ids with row ids at block boundaries (see C06)."
 )
 ASSUMPTIONS = [
     "histories start from well-formed indexes and respect the preconditions listed for C06",
@@ -71,7 +72,20 @@ def check_construction(case, rec):
         rec.nontrivial()
 
 
+def _long_entries(case, rec):
+    from .. import giant as G
+
+    return G.check_long_entries(case, rec)
+
+
+def _enum_long(tier, shard, nshards):
+    from .. import giant as G
+
+    return G.enum_long_entries(tier, shard, nshards)
+
+
 SUBS = [
+    Sub("long_entries", _long_entries, enumerate=_enum_long, exhaustive=True, shards={"quick": 4, "thorough": 8}),
     Sub("histories", M.replay, runner=runner, examples=EX, weight=5),
     Sub("construction", check_construction, strategy=construction_cases,
         examples={"quick": 8000, "thorough": 200000}),
